@@ -15,11 +15,16 @@ LEAN_PROPS = 'PlumpyModel.Props.C03'
 ASSUMPTIONS = [
     'exactly one injected fault per run: (hook point, occurrence index, raise before / after calling super())',
     'scenarios: plain run (outputs, Continue, Wait/resume), run with pause/play at every position, run with kill at every '
-    'position, run with a call_soon callback; asyncio driven one callback at a time',
+    'position, run with a call_soon callback, requests issued by listeners from inside notifications; asyncio driven one '
+    'callback at a time',
     'hooks of the EXCEPTED state itself (on_except, on_excepted) are not fault points: they only run after another failure',
+    'the n-th out() call of the harness process is mapped to (step function, await points before it) by the harness (OUT_AT)',
 ]
-TRUSTED = ['fault model lean/PlumpyModel/Fault/Model.lean: transition_to with raising hooks (hand-written mirror), compared with '
-           'the real transition outcome on every case']
+TRUSTED = ['lean/PlumpyModel/Fault/Process.lean: the process-control model with listeners with user overrides in every lifecycle hook '
+           '(hand-written twins of PM/Listener.lean; whole runs, compared with the real run after every op of every case); that the '
+           'twins of a run whose fault has not fired compute what PM/Listener.lean computes is tested by that comparison, not proved',
+           'lean/PlumpyModel/Fault/Model.lean: one transition_to with raising hooks, the swallowing loops (listeners, cleanups), '
+           'construction, out() (hand-written, compared on every case that exercises them)']
 
 STATE_HOOKS = ['on_run', 'on_running', 'on_exit_running', 'on_wait', 'on_waiting', 'on_exit_waiting', 'on_finish',
                'on_finished', 'on_kill', 'on_killed', 'on_terminated', 'on_close']
